@@ -217,6 +217,7 @@ def checks_deep(prog, f, depth=2, _seen=None):
     out = list(checks(f))
     if depth <= 0:
         return out
+    errs_f = err_return_blocks(f)
     _seen = (_seen or set()) | {f.path}
     crate = f.path.lstrip("<&").split("::")[0]
     for b, t in f.calls():
@@ -237,6 +238,107 @@ def checks_deep(prog, f, depth=2, _seen=None):
             d["subject_local"] = None
             d["other_local"] = None
             out.append(d)
+        # a boolean predicate helper whose answer decides an error return: its comparisons are checks of f
+        if g.local_ty(0) == "bool" and t[3] and len(t[3]) == 1 and t[4] is not None:
+            want = bool_result_rejects(f, t[3][0], t[4], errs_f)
+            if want is not None:
+                for cc in bool_fn_checks(g, want):
+                    d = dict(cc)
+                    d["via"] = g.path
+                    d["bb"] = b
+                    d["pos"] = t[-2]
+                    d["subject_local"] = None
+                    d["other_local"] = None
+                    out.append(d)
+    return out
+
+
+def bool_result_rejects(f, res, target, errs):
+    """the value (True/False) of bool local `res` (a call result available in block `target`) on which f goes to an error return,
+    or None when the result does not decide one"""
+    if not errs:
+        return None
+    blk = f.blocks[target]
+    t = blk[1]
+    if t[0] != "switch":
+        return None
+    cur, neg = op_local(t[1]), False
+    for _ in range(4):
+        if cur == res:
+            break
+        d = None
+        for st in reversed(blk[0]):
+            if st[0] == "=" and st[1] == [cur]:
+                d = st
+                break
+        if d is None:
+            return None
+        rv = d[2]
+        if rv[0] == "un" and rv[1] == "Not":
+            neg = not neg
+            cur = op_local(rv[2])
+        elif rv[0] == "use":
+            cur = op_local(rv[1])
+        else:
+            return None
+    if cur != res:
+        return None
+    for v, s in [(x[0], x[1]) for x in t[2]] + [("otherwise", t[3])]:
+        if v == "otherwise" and not any(x[0] == "0" for x in t[2]):
+            continue
+        if leads_to_error(f, s, errs):
+            truth = (v != "0")
+            return (not truth) if neg else truth
+    return None
+
+
+def bool_fn_checks(g, want):
+    """comparisons of the boolean function g that force it to return `want`: as check dicts (`subject op other` => g() == want)"""
+    defs = Defs(g)
+    const_blocks, other_assign, direct = set(), [], []
+    for b, blk in enumerate(g.blocks):
+        if g.is_cleanup(b):
+            continue
+        for st in blk[0]:
+            if st[0] != "=" or st[1] != [0]:
+                continue
+            rv = st[2]
+            k = op_const_int(rv[1]) if rv[0] == "use" else None
+            if k is not None:
+                if bool(k) == want:
+                    const_blocks.add(b)
+                else:
+                    other_assign.append(b)
+                continue
+            cmp_st, cur = None, None
+            if rv[0] == "bin" and rv[1] in CMP:
+                cmp_st = st
+            elif rv[0] == "use":
+                cur = op_local(rv[1])
+                d = defs.single(cur) if cur is not None else None
+                if d and d[2] == "assign" and d[3][2][0] == "bin" and d[3][2][1] in CMP:
+                    cmp_st = d[3]
+            if cmp_st is not None:
+                direct.append((b, cmp_st))
+            else:
+                other_assign.append(b)
+    out = list(checks(g, errs=const_blocks)) if const_blocks else []
+    # `.. && last` / `.. || last`: the last operand is assigned to the result directly; it forces `want` only when every other way out
+    # already returns `want`
+    if direct and not other_assign:
+        for b, st in direct:
+            rv = st[2]
+            op = CMP[rv[1]]
+            cond_op = op if want else NEG[op]
+            a = subject_name(g, defs, rv[2])
+            c = subject_name(g, defs, rv[3])
+            sd = subject_name(g, defs, rv[2], use_names=False)
+            od = subject_name(g, defs, rv[3], use_names=False)
+            if isinstance(a, int) and not isinstance(c, int):
+                a, c, cond_op = c, a, FLIP[cond_op]
+                sd, od = od, sd
+            out.append(dict(subject=a, op=cond_op, other=c, pos=st[3], bb=b, fail_edge=(b, b, "direct"), macro=st[4],
+                            subject_local=None, other_local=None, deep=norm(sd, cond_op, od)))
     return out
 
 
